@@ -137,34 +137,28 @@ Proof.
   apply hslice_end; [reflexivity | unfold bs; lia].
 Qed.
 
-Lemma xmcd_export_inst0 iface typ cfg : xmcd_wf iface 0 typ cfg ->
-  xmcd_export {| xm_if := iface; xm_inst := 0; xm_type := typ; xm_cfg := cfg |} = Ok (xmcd_bytes iface 0 typ cfg).
+Lemma xmcd_export_spec iface inst typ cfg : xmcd_wf iface inst typ cfg ->
+  xmcd_export {| xm_if := iface; xm_inst := inst; xm_type := typ; xm_cfg := cfg |} = Ok (xmcd_bytes iface inst typ cfg).
 Proof.
   intros (Hi & Hn & Ht & Hc). pose proof (hlen_nonneg cfg) as Hc0.
   unfold xmcd_export, xmcd_size, xmcd_bytes. cbn [xm_if xm_inst xm_type xm_cfg].
   set (bs := 4 + hlen cfg).
   assert (F1 : fits 1 (typ * 16 + bs / 256) = true)
     by (apply fits_spec; change (2 ^ (8 * Z.of_nat 1)) with 256; unfold bs; lia).
-  assert (F2 : fits 1 (iface * 2 ^ (4 + 0)) = true)
-    by (apply fits_spec; change (2 ^ (8 * Z.of_nat 1)) with 256; change (2 ^ (4 + 0)) with 16; lia).
+  assert (F2 : fits 1 (iface * 16 + inst) = true)
+    by (apply fits_spec; change (2 ^ (8 * Z.of_nat 1)) with 256; lia).
   assert (F3 : fits 1 (bs mod 256) = true)
     by (apply fits_spec; change (2 ^ (8 * Z.of_nat 1)) with 256; lia).
   unfold all_fit. cbn [forallb]. rewrite F1, F2. cbn [andb].
-  rewrite !hbe1_eq by assumption. cbn [app]. change (2 ^ (4 + 0)) with 16. rewrite Z.add_0_r. reflexivity.
+  rewrite !hbe1_eq by assumption. reflexivity.
 Qed.
 
-(* the round trip holds whenever the instance number is 0 ... *)
-Lemma xmcd_roundtrip_inst0 iface typ cfg : xmcd_wf iface 0 typ cfg ->
-  bind (xmcd_load (xmcd_bytes iface 0 typ cfg)) xmcd_export = Ok (xmcd_bytes iface 0 typ cfg).
-Proof. intros H. rewrite xmcd_load_spec by assumption. cbn [bind]. now apply xmcd_export_inst0. Qed.
+(* SegXMCD.parse -> export is the identity for every interface (0, 1), instance (0..15), type (0, 1), size < 4096 *)
+Lemma xmcd_roundtrip_all iface inst typ cfg : xmcd_wf iface inst typ cfg ->
+  bind (xmcd_load (xmcd_bytes iface inst typ cfg)) xmcd_export = Ok (xmcd_bytes iface inst typ cfg).
+Proof. intros H. rewrite xmcd_load_spec by assumption. cbn [bind]. now apply xmcd_export_spec. Qed.
 
-(* ... and fails for instance 1 (the exported byte is interface << (4 + instance)) *)
-Lemma xmcd_roundtrip_witness :
-  xmcd_wf 0 1 0 [1; 2; 3; 4]%N /\
-  bind (xmcd_load (xmcd_bytes 0 1 0 [1; 2; 3; 4]%N)) xmcd_export <> Ok (xmcd_bytes 0 1 0 [1; 2; 3; 4]%N).
-Proof. split; [unfold xmcd_wf; cbn; lia | vm_compute; discriminate]. Qed.
-
-Example xmcd_wf_nonvacuous : xmcd_wf 1 0 1 (repeat 7%N 60).
+Example xmcd_wf_nonvacuous : xmcd_wf 1 15 1 (repeat 7%N 60).
 Proof. unfold xmcd_wf. cbn. lia. Qed.
 
 (* ------------------------------------------------------------------ S4a: inversion of the build pipeline *)
@@ -203,15 +197,20 @@ Lemma hab_finish_inv c q b : hab_finish c q = Ok b ->
     existsb (fun b => hlen (padded_image c q csf0) <? fst b - h_start c + snd b) (signed_blocks c q) = false /\
     upd_auth 0 (add_blocks [] (Some (sigimg (h_ver c) (h_sig_csf c)))) cmds2 = Some cmds3 /\
     csf_export (h_ver c) cmds3 = Ok csf_b /\
-    b = mk_built c q (place (base_segs q ++ [(c_csf_off c, csf_b); (c_app_off c, app_fin)])) (signed_blocks c q) eb
+    segs_ok [] (all_segs c q csf0 (c_app_bin c)) = true /\
+    b = mk_built c q (place (all_segs c q csf_b app_fin)) (signed_blocks c q) eb
                  (tbs_of c (padded_image c q csf0) (signed_blocks c q)) (csf_base (h_ver c) cmds3) csf_b app_fin nonce mac.
 Proof.
-  unfold hab_finish. intros H. apply bind_ok in H as (csf0 & H0 & H). apply bind_ok in H as (e & He & H).
+  unfold hab_finish. intros H. apply bind_ok in H as (csf0 & H0 & H).
+  destruct (segs_ok [] (all_segs c q csf0 (c_app_bin c))) eqn:Es0; cbn [negb] in H; [|discriminate].
+  apply bind_ok in H as (e & He & H).
   destruct e as [[[[cmds1 app_fin] eb] nonce] mac].
   destruct (upd_auth 1 _ cmds1) as [cmds2|] eqn:E2; [|discriminate].
   destruct (existsb _ (signed_blocks c q)) eqn:Ex; [discriminate|].
   destruct (upd_auth 0 _ cmds2) as [cmds3|] eqn:E3; [|discriminate].
-  apply bind_ok in H as (csf_b & Hc & H). inversion H; subst b; clear H.
+  apply bind_ok in H as (csf_b & Hc & H).
+  destruct (segs_ok [] (all_segs c q csf_b app_fin)); cbn [negb] in H; [|discriminate].
+  inversion H; subst b; clear H.
   exists csf0, cmds1, app_fin, eb, nonce, mac, cmds2, cmds3, csf_b.
   repeat split; try assumption.
   destruct (c_enc c).
@@ -223,10 +222,13 @@ Qed.
 Lemma hab_build_inv c b : hab_build c = Ok b ->
   exists q, hab_pre c = Ok q /\
     (if c_auth c then hab_finish c q = Ok b
-     else b = mk_built c q (place (base_segs q ++ [(c_app_off c, c_app_bin c)])) [] [] [] [] [] (c_app_bin c) [] []).
+     else segs_ok [] (base_segs q ++ [(c_app_off c, c_app_bin c)]) = true /\
+          b = mk_built c q (place (base_segs q ++ [(c_app_off c, c_app_bin c)])) [] [] [] [] [] (c_app_bin c) [] []).
 Proof.
   unfold hab_build. intros H. apply bind_ok in H as (q & Hq & H). exists q. split; [assumption|].
-  destruct (c_auth c); cbn [negb] in H; [assumption | now inversion H].
+  destruct (c_auth c); cbn [negb] in H; [assumption|].
+  destruct (segs_ok [] (base_segs q ++ [(c_app_off c, c_app_bin c)])); cbn [negb] in H; [|discriminate].
+  split; [reflexivity | now inversion H].
 Qed.
 
 (* ------------------------------------------------------------------ S6: the Authenticate Data / Decrypt Data block lists *)
@@ -246,60 +248,41 @@ Fixpoint disjoint_blocks (bl : list (Z * Z)) : Prop :=
   | a :: t => Forall (fun b => fst a + snd a <= fst b \/ fst b + snd b <= fst a) t /\ disjoint_blocks t
   end.
 
-Lemma blocks_cover c q : q_xm q = None ->
+Lemma blocks_cover c q :
   forall p, in_blocks c (signed_blocks c q ++ (if c_enc c then enc_blocks c else [])) p <-> content_pos c q p.
 Proof.
-  intros Hx p. unfold in_blocks, content_pos, signed_blocks, enc_blocks, blk, in_rng, c_self, q_dcd_sz. rewrite Hx.
-  destruct (q_dcd q) as [x|] eqn:Ed; destruct (c_enc c); cbn [app]; split.
+  intros p. unfold in_blocks, content_pos, signed_blocks, enc_blocks, blk, in_rng, c_self, q_dcd_sz.
+  destruct (q_dcd q) as [x|] eqn:Ed; destruct (q_xm q) as [y|] eqn:Ex; destruct (c_enc c); cbn [app]; split.
   all: try (intros (b & Hin & Hr); cbn [In] in Hin;
             repeat (destruct Hin as [<-|Hin]; [cbn [fst snd] in Hr | ]); try destruct Hin;
-            first [ lia | right; right; left; exists x; split; [reflexivity | lia] ]).
-  all: intros [H | [H | [(x' & Ed' & H) | [(x' & Ex' & _) | H]]]]; try discriminate;
-       try (inversion Ed'; subst x').
-  all: try (eexists; split; [left; reflexivity | cbn [fst snd]; lia]).
-  all: try (eexists; split; [right; left; reflexivity | cbn [fst snd]; lia]).
-  all: try (eexists; split; [right; right; left; reflexivity | cbn [fst snd]; lia]).
+            first [ lia
+                  | right; right; left; eexists; split; [reflexivity | lia]
+                  | right; right; right; left; eexists; split; [reflexivity | lia] ]).
+  all: intros [H | [H | [(x' & Ed' & H) | [(y' & Ex' & H) | H]]]]; try discriminate;
+       try (inversion Ed'; subst x'); try (inversion Ex'; subst y').
+  all: first [ eexists; split; [left; reflexivity | cbn [fst snd]; lia]
+             | eexists; split; [right; left; reflexivity | cbn [fst snd]; lia]
+             | eexists; split; [right; right; left; reflexivity | cbn [fst snd]; lia]
+             | eexists; split; [right; right; right; left; reflexivity | cbn [fst snd]; lia] ].
 Qed.
 
-Lemma blocks_disjoint c q : q_xm q = None -> 0 <= q_dcd_sz q -> 64 + q_dcd_sz q <= c_app_off c ->
+Definition q_xm_sz (q : pre) : Z := match q_xm q with Some x => xmcd_size x | None => 0 end.
+
+Lemma blocks_disjoint c q : (q_dcd q = None \/ q_xm q = None) -> 0 <= q_dcd_sz q ->
+  64 + q_dcd_sz q + q_xm_sz q <= c_app_off c ->
   disjoint_blocks (signed_blocks c q ++ (if c_enc c then enc_blocks c else [])).
 Proof.
-  intros Hx H0 H1. unfold signed_blocks, enc_blocks, blk. rewrite Hx.
+  intros Hone H0 H1. unfold signed_blocks, enc_blocks, blk.
   pose proof (hlen_nonneg (c_app_bin c)) as Hn.
-  unfold q_dcd_sz in *.
-  destruct (q_dcd q) eqn:Ed; destruct (c_enc c); cbn [app disjoint_blocks fst snd];
+  unfold q_dcd_sz, q_xm_sz, xmcd_size in *.
+  destruct (q_dcd q) eqn:Ed; destruct (q_xm q) as [y|] eqn:Ex; try (destruct Hone; discriminate);
+    try pose proof (hlen_nonneg (xm_cfg y)); destruct (c_enc c); cbn [app disjoint_blocks fst snd];
     repeat match goal with
            | |- _ /\ _ => split
            | |- Forall _ [] => constructor
            | |- Forall _ (_ :: _) => constructor
            | |- True => exact I
            end; cbn [fst snd]; lia.
-Qed.
-
-(* witness of the XMCD defect: authenticated image with an 8-byte XMCD; its first byte (offset 0x40) is in no block *)
-Definition cw_xmcd : hcfg :=
-  {| h_flags := 8; h_start := 4096; h_ivt_off := 1024; h_ils := 4096; h_entry := Some 8193;
-     h_app := [0; 0; 2; 32; 1; 32; 0; 0]%N; h_dcd := None; h_xmcd := Some (xmcd_bytes 0 0 0 [1; 2; 3; 4]%N);
-     h_ver := 66; h_engine := 0; h_secs := [SInsSrk 0 [215; 0; 4; 64]%N; SAuthCsf; SAuthData 0 0 0];
-     h_dek := []; h_mac_len := 16; h_nonce := None; h_sig_data := [1%N]; h_sig_csf := [2%N] |}.
-
-Lemma xmcd_not_covered :
-  c_auth cw_xmcd = true /\ is_ok (hab_build cw_xmcd) = true /\
-  forall b q, hab_build cw_xmcd = Ok b -> hab_pre cw_xmcd = Ok q ->
-    content_pos cw_xmcd q 64 /\ ~ in_blocks cw_xmcd (b_signed b ++ b_enc b) 64.
-Proof.
-  split; [reflexivity|]. split; [vm_compute; reflexivity|].
-  intros b q Hb Hq.
-  assert (Es : match hab_build cw_xmcd with Ok b => b_signed b ++ b_enc b | Err _ => [] end
-               = [(5120, 64); (5184, 0); (8192, 16)]) by (vm_compute; reflexivity).
-  rewrite Hb in Es. rewrite Es.
-  assert (Eq : match hab_pre cw_xmcd with Ok q => option_map xmcd_size (q_xm q) | Err _ => None end = Some 8)
-    by (vm_compute; reflexivity).
-  rewrite Hq in Eq. split.
-  - unfold content_pos. right; right; right; left. destruct (q_xm q) as [x|]; [|discriminate].
-    exists x. split; [reflexivity|]. cbn [option_map] in Eq. inversion Eq as [E]. unfold in_rng. rewrite E. lia.
-  - intros (bb & Hin & Hr). unfold in_rng, c_self in Hr. cbn [h_start h_ivt_off cw_xmcd] in Hr.
-    destruct Hin as [<-|[<-|[<-|[]]]]; cbn [fst snd] in Hr; lia.
 Qed.
 
 (* ------------------------------------------------------------------ S3: BinaryImage export of non-overlapping segments *)
@@ -506,24 +489,23 @@ Proof.
   rewrite hlen_app, hlen_hzeros by lia. lia.
 Qed.
 
-Lemma csf_geom c : 0 <= h_ivt_off c <= h_ils c -> h_ils c mod 16 = 0 -> c_auth c = true ->
-  c_app_off c + hlen (c_app_bin c) <= c_csf_off c /\ c_app_off c < c_csf_off c.
+Lemma csf_after_app c : 0 <= h_ivt_off c <= h_ils c -> c_app_off c < c_csf_off c.
 Proof.
-  intros H H16 Ha. unfold c_app_bin, c_csf_off, c_app_off, align_off. rewrite Ha.
-  rewrite hlen_pad_to by lia. pose proof (hlen_nonneg (h_app c)) as Hn. unfold halign. lia.
+  intros H. unfold c_csf_off, c_app_off, align_off. pose proof (hlen_nonneg (h_app c)) as Hn. lia.
 Qed.
 
-(* DCD and XMCD bytes at IVT+0x40 (at most one of them under layout_wf) *)
+(* DCD and XMCD bytes at IVT+0x40 (at most one of them under layout_full) *)
 Definition q_dx (q : pre) : option (list N) := match q_dcd_b q with Some d => Some d | None => q_xm_b q end.
 
 (* a DCD object is stable when parsing its own export gives it back (proved for specification-encoded DCDs: dcd_roundtrip) *)
 Definition dcd_stable (x : dcd) : Prop := forall rest, dcd_parse (dcd_export x ++ rest) = Ok x.
 
-Definition layout_wf (c : hcfg) (q : pre) : Prop :=
+Definition layout_full (c : hcfg) (q : pre) : Prop :=
   (q_dcd q = None \/ q_xm q = None) /\
-  64 + hlen (of_opt (q_dx q)) <= c_app_off c /\ 68 <= c_app_off c /\ h_ils c mod 16 = 0 /\
+  64 + hlen (of_opt (q_dx q)) <= c_app_off c /\ 68 <= c_app_off c /\
+  (c_auth c = true -> c_app_off c + hlen (c_app_bin c) <= c_csf_off c /\ c_app_off c < c_csf_off c) /\
   (forall x, q_dcd q = Some x -> hi4 (dc_par x) <> 12 /\ fits 1 (dc_par x) = true /\ fits 2 (dcd_size x) = true /\ dcd_stable x) /\
-  (forall x, q_xm q = Some x -> xm_inst x = 0 /\ xmcd_wf (xm_if x) 0 (xm_type x) (xm_cfg x)).
+  (forall x, q_xm q = Some x -> xmcd_wf (xm_if x) (xm_inst x) (xm_type x) (xm_cfg x)).
 
 Lemma base_segs_dx q : (q_dcd q = None \/ q_xm q = None) -> (q_xm q = None -> q_xm_b q = None) ->
   base_segs q = [(0, q_ivt_b q); (32, q_bdt_b q)] ++ opt_seg 64 (q_dx q).
@@ -547,11 +529,11 @@ Proof.
 Qed.
 
 (* plain image *)
-Lemma plain_image_shape c q b : hab_build c = Ok b -> hab_pre c = Ok q -> c_auth c = false -> layout_wf c q ->
+Lemma plain_image_shape c q b : hab_build c = Ok b -> hab_pre c = Ok q -> c_auth c = false -> layout_full c q ->
   b_image b = image_shape q (c_app_off c) (c_app_bin c) [] /\ b_app b = c_app_bin c.
 Proof.
   intros Hb Hq Ha (W1 & W2 & _).
-  apply hab_build_inv in Hb as (q' & Hq' & Hb). rewrite Hq in Hq'. apply ok_inj in Hq'; subst q'. rewrite Ha in Hb. subst b.
+  apply hab_build_inv in Hb as (q' & Hq' & Hb). rewrite Hq in Hq'. apply ok_inj in Hq'; subst q'. rewrite Ha in Hb. destruct Hb as [_ ->].
   destruct (pre_lens c q Hq) as (Li & Lb & Lx).
   cbn [mk_built b_image b_app]. split; [|reflexivity].
   rewrite base_segs_dx by assumption. rewrite <- app_assoc.
@@ -581,29 +563,29 @@ Proof.
   cbn [firstn]. apply app_nil_r.
 Qed.
 
-Lemma auth_place c q csf ap : hab_pre c = Ok q -> c_auth c = true -> layout_wf c q -> hlen ap = hlen (c_app_bin c) ->
-  place (base_segs q ++ [(c_csf_off c, csf); (c_app_off c, ap)]) = prefix_shape q (c_app_off c) ap (c_csf_off c) ++ csf.
+Lemma auth_place c q csf ap : hab_pre c = Ok q -> c_auth c = true -> layout_full c q -> hlen ap = hlen (c_app_bin c) ->
+  place (all_segs c q csf ap) = prefix_shape q (c_app_off c) ap (c_csf_off c) ++ csf.
 Proof.
-  intros Hq Ha (W1 & W2 & W3 & W4 & _) Hl.
+  intros Hq Ha (W1 & W2 & W3 & W4 & _) Hl. unfold all_segs.
   destruct (pre_lens c q Hq) as (Li & Lb & Lx).
   pose proof (hab_pre_inv c q Hq) as (_ & Hg & _).
-  destruct (csf_geom c Hg W4 Ha) as [G1 G2].
+  first [destruct (W4 Ha) as [G1 G2] | destruct (W4 eq_refl) as [G1 G2]].
   rewrite base_segs_dx by assumption. rewrite <- app_assoc.
   rewrite place_auth by (try assumption; lia). apply image_prefix.
 Qed.
 
-Lemma padded_image_eq c q csf0 : hab_pre c = Ok q -> c_auth c = true -> layout_wf c q ->
+Lemma padded_image_eq c q csf0 : hab_pre c = Ok q -> c_auth c = true -> layout_full c q ->
   padded_image c q csf0 = hzeros (h_ivt_off c) ++ prefix_shape q (c_app_off c) (c_app_bin c) (c_csf_off c).
 Proof.
   intros Hq Ha W. unfold padded_image. rewrite (auth_place c q csf0 (c_app_bin c)) by (try assumption; reflexivity).
   rewrite app_assoc. apply firstn_app_exact.
   destruct W as (W1 & W2 & W3 & W4 & _). destruct (pre_lens c q Hq) as (Li & Lb & Lx).
-  pose proof (hab_pre_inv c q Hq) as (_ & Hg & _). destruct (csf_geom c Hg W4 Ha) as [G1 G2].
+  pose proof (hab_pre_inv c q Hq) as (_ & Hg & _). first [destruct (W4 Ha) as [G1 G2] | destruct (W4 eq_refl) as [G1 G2]].
   rewrite hlen_app, hlen_hzeros, hlen_prefix by (try assumption; lia). reflexivity.
 Qed.
 
 (* the bytes CsfHabSegment.encrypt reads from the padded image are the (padded) application *)
-Lemma padded_app_slice c q csf0 : hab_pre c = Ok q -> c_auth c = true -> layout_wf c q ->
+Lemma padded_app_slice c q csf0 : hab_pre c = Ok q -> c_auth c = true -> layout_full c q ->
   hslice (padded_image c q csf0) (h_ivt_off c + c_app_off c) (h_ivt_off c + c_app_off c + hlen (c_app_bin c)) = c_app_bin c.
 Proof.
   intros Hq Ha W. rewrite padded_image_eq by assumption. unfold prefix_shape.
@@ -665,7 +647,7 @@ Proof.
   apply hslice_mid; [|lia]. rewrite !hlen_app, Li, Lb, !hlen_hzeros by lia. lia.
 Qed.
 
-Lemma enc_build_facts c b q : hab_build c = Ok b -> hab_pre c = Ok q -> c_enc c = true -> layout_wf c q -> wf_bytes (h_dek c) ->
+Lemma enc_build_facts c b q : hab_build c = Ok b -> hab_pre c = Ok q -> c_enc c = true -> layout_full c q -> wf_bytes (h_dek c) ->
   b_image b = prefix_shape q (c_app_off c) (b_app b) (c_csf_off c) ++ b_csf b /\
   hlen (b_app b) = hlen (c_app_bin c) /\
   b_app b ++ b_mac b = ccm_encrypt (aes_enc (h_dek c)) (b_nonce b) [] (Z.to_nat (h_mac_len c)) (c_app_bin c) /\
@@ -676,7 +658,7 @@ Proof.
   pose proof (hab_pre_inv c q Hq) as (Hf & _).
   pose proof (enc_implies_auth c Hf He) as Ha.
   apply hab_build_inv in Hb as (q' & Hq' & Hb). rewrite Hq in Hq'. apply ok_inj in Hq'; subst q'. rewrite Ha in Hb.
-  apply hab_finish_inv in Hb as (csf0 & cmds1 & app_fin & eb & nonce & mac & cmds2 & cmds3 & csf_b & H0 & H1 & _ & _ & _ & _ & Hbb).
+  apply hab_finish_inv in Hb as (csf0 & cmds1 & app_fin & eb & nonce & mac & cmds2 & cmds3 & csf_b & H0 & H1 & _ & _ & _ & _ & Hso & Hbb).
   rewrite He in H1. destruct H1 as [Henc ->]. subst b. cbn [mk_built b_image b_app b_mac b_nonce b_csf b_enc].
   pose proof (hab_encrypt_facts c q _ _ _ _ _ Henc Hw) as (F1 & F2 & F3 & F4 & F5).
   rewrite padded_app_slice in F1, F2 by assumption.
@@ -685,7 +667,7 @@ Proof.
   repeat split; assumption.
 Qed.
 
-Lemma ccm_restores c b q : hab_build c = Ok b -> hab_pre c = Ok q -> c_enc c = true -> layout_wf c q -> wf_bytes (h_dek c) ->
+Lemma ccm_restores c b q : hab_build c = Ok b -> hab_pre c = Ok q -> c_enc c = true -> layout_full c q -> wf_bytes (h_dek c) ->
   b_enc b = [(h_start c + h_ivt_off c + c_app_off c, hlen (c_app_bin c))] /\
   ccm_decrypt (aes_enc (h_dek c)) (b_nonce b) [] (Z.to_nat (h_mac_len c))
               (hslice (b_image b) (c_app_off c) (c_app_off c + hlen (c_app_bin c)) ++ b_mac b) = Some (c_app_bin c).
@@ -725,7 +707,7 @@ Proof.
   rewrite P2. reflexivity.
 Qed.
 
-Lemma shape_parse_dcd c q ap tail : hab_pre c = Ok q -> layout_wf c q ->
+Lemma shape_parse_dcd c q ap tail : hab_pre c = Ok q -> layout_full c q ->
   parse_dcd (image_shape q (c_app_off c) ap tail) (c_ivt c) = Ok (q_dcd_b q).
 Proof.
   intros Hq (W1 & W2 & W3 & W4 & W5 & W6).
@@ -764,7 +746,7 @@ Proof.
   replace (iface <=? 1) with true by lia. replace (typ <=? 1) with true by lia. reflexivity.
 Qed.
 
-Lemma shape_parse_xmcd c q ap tail : hab_pre c = Ok q -> layout_wf c q ->
+Lemma shape_parse_xmcd c q ap tail : hab_pre c = Ok q -> layout_full c q ->
   parse_xmcd (image_shape q (c_app_off c) ap tail) = Ok (q_xm_b q).
 Proof.
   intros Hq (W1 & W2 & W3 & W4 & W5 & W6).
@@ -787,21 +769,21 @@ Proof.
   - unfold q_dx, q_dcd_b. rewrite Ed. cbn [option_map].
     destruct (q_xm q) as [x|] eqn:Ex.
     + (* XMCD at 0x40 *)
-      destruct (W6 x eq_refl) as (Hi0 & Hwf).
+      pose proof (W6 x eq_refl) as Hwf.
       destruct (h_xmcd c) as [d|]; [|destruct Hx; congruence].
       destruct Hx as (x' & xb & _ & Ex' & Exp & Exb). assert (x' = x) by congruence. subst x'.
-      destruct x as [iface inst typ cfg]. cbn [xm_inst xm_if xm_type xm_cfg] in *. subst inst.
-      rewrite xmcd_export_inst0 in Exp by assumption. apply ok_inj in Exp. subst xb.
+      destruct x as [iface inst typ cfg]. cbn [xm_inst xm_if xm_type xm_cfg] in *.
+      rewrite xmcd_export_spec in Exp by assumption. apply ok_inj in Exp. subst xb.
       rewrite Exb. cbn [of_opt]. rewrite xmcd_hdr_parse_spec by assumption. cbn [bind].
       replace (68 + (4 + hlen cfg) - 4) with (68 + hlen cfg) by lia.
       assert (Ecfg : hslice (image_shape q (c_app_off c) ap tail) 68 (68 + hlen cfg) = cfg).
       { unfold image_shape, q_dx, q_dcd_b. rewrite Ed, Exb. cbn [option_map of_opt]. unfold xmcd_bytes.
         rewrite app3. rewrite <- (app_assoc _ cfg).
-        change ([Z.to_N ((4 + hlen cfg) mod 256); Z.to_N (typ * 16 + (4 + hlen cfg) / 256); Z.to_N (iface * 16 + 0); 192%N] ++ cfg ++ ?r)
-          with ([Z.to_N ((4 + hlen cfg) mod 256); Z.to_N (typ * 16 + (4 + hlen cfg) / 256); Z.to_N (iface * 16 + 0); 192%N] ++ cfg ++ r).
+        change ([Z.to_N ((4 + hlen cfg) mod 256); Z.to_N (typ * 16 + (4 + hlen cfg) / 256); Z.to_N (iface * 16 + inst); 192%N] ++ cfg ++ ?r)
+          with ([Z.to_N ((4 + hlen cfg) mod 256); Z.to_N (typ * 16 + (4 + hlen cfg) / 256); Z.to_N (iface * 16 + inst); 192%N] ++ cfg ++ r).
         rewrite app_assoc. apply hslice_mid; [|lia].
         rewrite !hlen_app, Li, Lb, hlen_hzeros by lia. reflexivity. }
-      rewrite Ecfg. rewrite xmcd_export_inst0 by assumption. reflexivity.
+      rewrite Ecfg. rewrite xmcd_export_spec by assumption. reflexivity.
     + (* nothing at 0x40: zero padding *)
       rewrite (Lx eq_refl). cbn [of_opt app]. rewrite hlen_nil.
       rewrite hzeros_4 by lia. cbn [app]. unfold xmcd_hdr_parse.
@@ -811,7 +793,7 @@ Qed.
 Definition gap_tail (c : hcfg) (b : built) : list N :=
   if c_auth c then hzeros (c_csf_off c - c_app_off c - hlen (b_app b)) else [].
 
-Lemma build_shape c b q : hab_build c = Ok b -> hab_pre c = Ok q -> layout_wf c q -> (c_enc c = true -> wf_bytes (h_dek c)) ->
+Lemma build_shape c b q : hab_build c = Ok b -> hab_pre c = Ok q -> layout_full c q -> (c_enc c = true -> wf_bytes (h_dek c)) ->
   b_image b = image_shape q (c_app_off c) (b_app b) (gap_tail c b ++ (if c_auth c then b_csf b else [])) /\
   hlen (b_app b) = hlen (c_app_bin c) /\ (c_enc c = false -> b_app b = c_app_bin c).
 Proof.
@@ -822,7 +804,7 @@ Proof.
       rewrite Hi, <- image_prefix. repeat split; try assumption. discriminate.
     + pose proof Hb as Hb0.
       apply hab_build_inv in Hb as (q' & Hq' & Hb). rewrite Hq in Hq'. apply ok_inj in Hq'; subst q'. rewrite Ha in Hb.
-      apply hab_finish_inv in Hb as (csf0 & cmds1 & app_fin & eb & nonce & mac & cmds2 & cmds3 & csf_b & H0 & H1 & _ & _ & _ & _ & Hbb).
+      apply hab_finish_inv in Hb as (csf0 & cmds1 & app_fin & eb & nonce & mac & cmds2 & cmds3 & csf_b & H0 & H1 & _ & _ & _ & _ & Hso & Hbb).
       rewrite He in H1. destruct H1 as (-> & -> & -> & -> & ->). subst b. cbn [mk_built b_image b_app b_csf].
       rewrite (auth_place c q csf_b (c_app_bin c)) by (try assumption; reflexivity).
       rewrite <- image_prefix. repeat split; reflexivity.
@@ -852,7 +834,7 @@ Proof.
 Qed.
 
 (* The round trip of everything HabContainer.parse reads apart from the CSF contents. *)
-Theorem layout_roundtrip c b q : hab_build c = Ok b -> hab_pre c = Ok q -> layout_wf c q ->
+Theorem layout_roundtrip c b q : hab_build c = Ok b -> hab_pre c = Ok q -> layout_full c q ->
   (c_enc c = true -> wf_bytes (h_dek c)) ->
   find_app_off (b_image b) (c_entry c) known_offsets = Ok (c_app_off c) ->
   parse_ivt_bdt (b_image b) = Ok (c_ivt c, (h_start c, c_bdt_len c, 0)) /\
@@ -872,7 +854,7 @@ Proof.
   unfold parse_app. change (iv_app (c_ivt c)) with (c_entry c). rewrite Hp. cbn [bind fst]. f_equal. f_equal.
   unfold c_ivt at 1 2 3. cbn [iv_csf iv_self]. unfold gap_tail in *.
   destruct (c_auth c) eqn:Ha.
-  - destruct (csf_geom c Hg W4 Ha) as [G1 G2]. unfold c_self.
+  - first [destruct (W4 Ha) as [G1 G2] | destruct (W4 eq_refl) as [G1 G2]]. unfold c_self.
     replace (0 <? h_start c + h_ivt_off c + c_csf_off c) with true by lia.
     replace (h_start c + h_ivt_off c + c_csf_off c - (h_start c + h_ivt_off c)) with (c_csf_off c) by lia.
     rewrite Hi. apply shape_app_slice_auth; try assumption. lia.
@@ -887,7 +869,7 @@ Definition c_ex : hcfg :=
      h_ver := 66; h_engine := 0; h_secs := []; h_dek := []; h_mac_len := 16; h_nonce := None; h_sig_data := []; h_sig_csf := [] |}.
 
 Example layout_roundtrip_nonvacuous :
-  exists b q, hab_build c_ex = Ok b /\ hab_pre c_ex = Ok q /\ layout_wf c_ex q /\
+  exists b q, hab_build c_ex = Ok b /\ hab_pre c_ex = Ok q /\ layout_full c_ex q /\
               find_app_off (b_image b) (c_entry c_ex) known_offsets = Ok (c_app_off c_ex).
 Proof.
   destruct (hab_build c_ex) as [b|] eqn:Eb; [|vm_compute in Eb; discriminate].
@@ -897,7 +879,7 @@ Proof.
     by (vm_compute; reflexivity).
   rewrite Eq in F. inversion F as [[F1 F2 F3]].
   split.
-  - unfold layout_wf, q_dx, q_dcd_b. rewrite F1, F2, F3. cbn. repeat split; try lia; try (now left); intros; discriminate.
+  - unfold layout_full, q_dx, q_dcd_b. rewrite F1, F2, F3. cbn. repeat split; try lia; try (now left); intros; discriminate.
   - assert (G : match hab_build c_ex with Ok b => find_app_off (b_image b) (c_entry c_ex) known_offsets | Err k => Err k end
                 = Ok (c_app_off c_ex)) by (vm_compute; reflexivity).
     now rewrite Eb in G.
@@ -908,18 +890,9 @@ Lemma build_blocks c b q : hab_build c = Ok b -> hab_pre c = Ok q -> c_auth c = 
 Proof.
   intros Hb Hq Ha.
   apply hab_build_inv in Hb as (q' & Hq' & Hb). rewrite Hq in Hq'. apply ok_inj in Hq'; subst q'. rewrite Ha in Hb.
-  apply hab_finish_inv in Hb as (csf0 & cmds1 & app_fin & eb & nonce & mac & cmds2 & cmds3 & csf_b & H0 & H1 & _ & _ & _ & _ & Hbb).
+  apply hab_finish_inv in Hb as (csf0 & cmds1 & app_fin & eb & nonce & mac & cmds2 & cmds3 & csf_b & H0 & H1 & _ & _ & _ & _ & Hso & Hbb).
   subst b. cbn [mk_built b_signed b_enc]. split; [reflexivity|].
   destruct (c_enc c); [destruct H1 as [_ ->] | destruct H1 as (_ & _ & -> & _)]; reflexivity.
-Qed.
-
-Theorem blocks_cover_built c b q : hab_build c = Ok b -> hab_pre c = Ok q -> c_auth c = true -> h_xmcd c = None ->
-  (forall p, in_blocks c (b_signed b ++ b_enc b) p <-> content_pos c q p) /\
-  (0 <= q_dcd_sz q -> 64 + q_dcd_sz q <= c_app_off c -> disjoint_blocks (b_signed b ++ b_enc b)).
-Proof.
-  intros Hb Hq Ha Hx. destruct (build_blocks c b q Hb Hq Ha) as [-> ->].
-  pose proof (hab_pre_inv c q Hq) as (_ & _ & _ & _ & Hxm & _). rewrite Hx in Hxm. destruct Hxm as [Hxm _].
-  split; [now apply blocks_cover | now apply blocks_disjoint].
 Qed.
 
 (* ------------------------------------------------------------------ IVT pointers and boot-data length = real positions and sizes *)
@@ -931,7 +904,7 @@ Proof.
   rewrite !hlen_app, Li, Lb, !hlen_hzeros by lia. lia.
 Qed.
 
-Theorem pointers_resolve c b q : hab_build c = Ok b -> hab_pre c = Ok q -> layout_wf c q ->
+Theorem pointers_resolve c b q : hab_build c = Ok b -> hab_pre c = Ok q -> layout_full c q ->
   (c_enc c = true -> wf_bytes (h_dek c)) ->
   iv_self (c_ivt c) = h_start c + h_ivt_off c /\
   hslice (b_image b) 0 32 = q_ivt_b q /\ ivt_parse (q_ivt_b q) = Ok (c_ivt c) /\
@@ -970,7 +943,7 @@ Proof.
     rewrite !hlen_app, Li, Lb, !hlen_hzeros by lia. lia. }
   unfold gap_tail in Hi. unfold c_ivt. cbn [iv_csf iv_self]. unfold c_bdt_len.
   destruct (c_auth c) eqn:Ha.
-  - destruct (csf_geom c Hg W4 Ha) as [G1 G2]. replace (c_self c + c_csf_off c - c_self c) with (c_csf_off c) by lia.
+  - first [destruct (W4 Ha) as [G1 G2] | destruct (W4 eq_refl) as [G1 G2]]. replace (c_self c + c_csf_off c - c_self c) with (c_csf_off c) by lia.
     split.
     + rewrite Hi, image_prefix. apply hskip_app. apply hlen_prefix; try assumption; lia.
     + intros L8. rewrite Hi. rewrite (hlen_image_shape q _ _ _ Li Lb W2). rewrite hlen_app, hlen_hzeros, L8 by lia. lia.
@@ -1013,27 +986,27 @@ Proof.
   rewrite hslice_shift by assumption. now rewrite !hslice_app_l by assumption.
 Qed.
 
-Lemma signed_blocks_bounds c q bound : 0 <= q_dcd_sz q -> 64 + q_dcd_sz q <= bound -> 64 <= bound ->
+Lemma signed_blocks_bounds c q bound : 0 <= q_dcd_sz q -> 64 + q_dcd_sz q <= bound -> 64 + q_xm_sz q <= bound -> 64 <= bound ->
   (c_enc c = false -> c_app_off c + hlen (c_app_bin c) <= bound) -> 0 <= c_app_off c ->
   Forall (fun blk : Z * Z => 0 <= fst blk - c_self c /\ fst blk - c_self c + snd blk <= bound) (signed_blocks c q).
 Proof.
-  intros H0 H1 H2 H3 H4. unfold signed_blocks, blk, c_self. pose proof (hlen_nonneg (c_app_bin c)).
-  destruct (q_dcd q); destruct (q_xm q); destruct (c_enc c); cbn [app];
+  intros H0 H1 Hx H2 H3 H4. unfold signed_blocks, blk, c_self, q_xm_sz, xmcd_size in *. pose proof (hlen_nonneg (c_app_bin c)).
+  destruct (q_dcd q); destruct (q_xm q) as [y|]; try pose proof (hlen_nonneg (xm_cfg y)); destruct (c_enc c); cbn [app];
     repeat (constructor; [cbn [fst snd]; split; try lia; (try (specialize (H3 eq_refl); lia))|]); constructor.
 Qed.
 
-Theorem signed_data_blocks c b q : hab_build c = Ok b -> hab_pre c = Ok q -> c_auth c = true -> layout_wf c q ->
-  (c_enc c = true -> wf_bytes (h_dek c)) -> 0 <= q_dcd_sz q -> 64 + q_dcd_sz q <= c_app_off c ->
+Theorem signed_data_blocks c b q : hab_build c = Ok b -> hab_pre c = Ok q -> c_auth c = true -> layout_full c q ->
+  (c_enc c = true -> wf_bytes (h_dek c)) -> 0 <= q_dcd_sz q -> 64 + q_dcd_sz q <= c_app_off c -> 64 + q_xm_sz q <= c_app_off c ->
   b_tbs_data b = concat (map (fun blk => hslice (b_image b) (fst blk - c_self c) (fst blk - c_self c + snd blk)) (b_signed b)).
 Proof.
-  intros Hb Hq Ha W Hw D0 D1.
+  intros Hb Hq Ha W Hw D0 D1 DX.
   destruct (build_shape c b q Hb Hq W Hw) as (Hi & Hl & Hpl). unfold gap_tail in Hi. rewrite Ha in Hi.
   cbn iota in Hi. rewrite image_prefix in Hi.
   pose proof W as (W1 & W2 & W3 & W4 & _). destruct (pre_lens c q Hq) as (Li & Lb & _).
-  pose proof (hab_pre_inv c q Hq) as (Hf & Hg & Hs & _). destruct (csf_geom c Hg W4 Ha) as [G1 G2].
+  pose proof (hab_pre_inv c q Hq) as (Hf & Hg & Hs & _). first [destruct (W4 Ha) as [G1 G2] | destruct (W4 eq_refl) as [G1 G2]].
   pose proof Hb as Hb0.
   apply hab_build_inv in Hb as (q' & Hq' & Hb). rewrite Hq in Hq'. apply ok_inj in Hq'; subst q'. rewrite Ha in Hb.
-  apply hab_finish_inv in Hb as (csf0 & cmds1 & app_fin & eb & nonce & mac & cmds2 & cmds3 & csf_b & H0 & H1 & _ & _ & _ & _ & Hbb).
+  apply hab_finish_inv in Hb as (csf0 & cmds1 & app_fin & eb & nonce & mac & cmds2 & cmds3 & csf_b & H0 & H1 & _ & _ & _ & _ & Hso & Hbb).
   assert (Et : b_tbs_data b = tbs_of c (padded_image c q csf0) (signed_blocks c q)) by (subst b; reflexivity).
   assert (Es : b_signed b = signed_blocks c q) by (subst b; reflexivity).
   rewrite Et, Es, Hi. unfold tbs_of. rewrite padded_image_eq by assumption.
@@ -1046,7 +1019,7 @@ Proof.
     apply (slices_agree Qx _ _ (hzeros (h_ivt_off c)) (h_ivt_off c) (c_self c) (h_start c)).
     + apply hlen_hzeros. lia.
     + reflexivity.
-    + rewrite LQ. apply signed_blocks_bounds; [assumption | lia | lia | rewrite He; intros; discriminate | lia].
+    + rewrite LQ. apply signed_blocks_bounds; [assumption | lia | lia | lia | rewrite He; intros; discriminate | lia].
   - rewrite (Hpl eq_refl).
     set (Qx := prefix_shape q (c_app_off c) (c_app_bin c) (c_csf_off c)).
     assert (LQ : hlen Qx = c_csf_off c) by (apply hlen_prefix; try assumption; lia).
@@ -1054,7 +1027,7 @@ Proof.
     apply (slices_agree Qx _ _ (hzeros (h_ivt_off c)) (h_ivt_off c) (c_self c) (h_start c)).
     + apply hlen_hzeros. lia.
     + reflexivity.
-    + rewrite LQ. apply signed_blocks_bounds; [assumption | lia | lia | intros; lia | lia].
+    + rewrite LQ. apply signed_blocks_bounds; [assumption | lia | lia | lia | intros; lia | lia].
 Qed.
 
 (* ------------------------------------------------------------------ S8/S9: CSF: cmd-data offsets resolve; the signed CSF range *)
@@ -1168,18 +1141,18 @@ Lemma build_csf c b q : hab_build c = Ok b -> hab_pre c = Ok q -> c_auth c = tru
 Proof.
   intros Hb Hq Ha.
   apply hab_build_inv in Hb as (q' & Hq' & Hb). rewrite Hq in Hq'. apply ok_inj in Hq'; subst q'. rewrite Ha in Hb.
-  apply hab_finish_inv in Hb as (csf0 & cmds1 & app_fin & eb & nonce & mac & cmds2 & cmds3 & csf_b & _ & _ & _ & _ & _ & Hc & Hbb).
+  apply hab_finish_inv in Hb as (csf0 & cmds1 & app_fin & eb & nonce & mac & cmds2 & cmds3 & csf_b & _ & _ & _ & _ & _ & Hc & _ & Hbb).
   exists cmds3. subst b. split; [exact Hc | reflexivity].
 Qed.
 
-Theorem cms_ranges c b q : hab_build c = Ok b -> hab_pre c = Ok q -> c_auth c = true -> layout_wf c q ->
-  (c_enc c = true -> wf_bytes (h_dek c)) -> 0 <= q_dcd_sz q -> 64 + q_dcd_sz q <= c_app_off c ->
+Theorem cms_ranges c b q : hab_build c = Ok b -> hab_pre c = Ok q -> c_auth c = true -> layout_full c q ->
+  (c_enc c = true -> wf_bytes (h_dek c)) -> 0 <= q_dcd_sz q -> 64 + q_dcd_sz q <= c_app_off c -> 64 + q_xm_sz q <= c_app_off c ->
   hskip (b_image b) (iv_csf (c_ivt c) - iv_self (c_ivt c)) = b_csf b /\
   hbyte (b_csf b) 0 = 212 /\
   b_tbs_csf b = hslice (b_csf b) 0 (u16be_at (b_csf b) 1) /\
   b_tbs_data b = concat (map (fun blk => hslice (b_image b) (fst blk - c_self c) (fst blk - c_self c + snd blk)) (b_signed b)).
 Proof.
-  intros Hb Hq Ha W Hw D0 D1.
+  intros Hb Hq Ha W Hw D0 D1 DX.
   destruct (build_csf c b q Hb Hq Ha) as (cmds & Hc & Ht).
   destruct (csf_signed_range _ _ _ Hc) as (R1 & R2 & R3).
   pose proof (pointers_resolve c b q Hb Hq W Hw) as (_ & _ & _ & _ & _ & _ & _ & P). rewrite Ha in P. destruct P as [P _].
@@ -1251,4 +1224,203 @@ Proof.
     change (hdec_be [0%N; 4%N]) with 4. change (4 <? 4) with false. cbn iota.
     change (192 =? 204) with false. change (192 =? 207) with false. change (192 =? 192) with true. cbn iota. reflexivity. }
   rewrite C2. cbn [bind nth dc_cmds dcd_ex pc_size]. change (4 + 12 + 4 <? 20) with false. cbn iota. reflexivity.
+Qed.
+
+(* ------------------------------------------------------------------ what the overlap refusal of HabContainer.image_info enforces *)
+Lemma ok_some {A} (a b : A) : Some a = Some b -> a = b.
+Proof. now inversion 1. Qed.
+
+Lemma xmcd_export_len x xb : xmcd_export x = Ok xb -> hlen xb = xmcd_size x.
+Proof.
+  unfold xmcd_export. destruct (all_fit 1 _); [|discriminate]. intros H. apply ok_inj in H. subst xb.
+  rewrite !hlen_app, !hlen_hbe. change (hlen [192%N]) with 1. unfold xmcd_size. lia.
+Qed.
+
+Lemma hlen_dcd_export x : 4 <= hlen (dcd_export x).
+Proof. unfold dcd_export. rewrite hlen_app, hlen_hdr. pose proof (hlen_nonneg (concat (map pc_bytes (dc_cmds x)))). lia. Qed.
+
+Lemma csf_hlen_ge l : 4 <= csf_hlen l.
+Proof. unfold csf_hlen. induction l as [|c t IH]; cbn [fold_right]; [lia|]. pose proof (cmd_size_pos c). lia. Qed.
+
+Lemma csf_export_pos ver l csf : csf_export ver l = Ok csf -> 0 < hlen csf.
+Proof.
+  unfold csf_export. destruct (csf_export_raw ver l) as [raw|] eqn:Er; cbn [res_map]; [|discriminate].
+  intros H. apply ok_inj in H. subst csf. destruct (csf_offsets_ok ver l raw Er) as [(t & ->) _].
+  unfold pad_to. rewrite !hlen_app, hlen_csf_base. pose proof (csf_hlen_ge l). pose proof (hlen_nonneg t).
+  match goal with |- context[hlen (hzeros ?z)] => pose proof (hlen_nonneg (hzeros z)) end. lia.
+Qed.
+
+Lemma segs_ok_auth ivt_b bdt_b dcdo xmo csf ap app_off csf_off :
+  hlen ivt_b = 32 -> hlen bdt_b = 12 -> 0 < hlen ap -> 0 < hlen csf -> app_off < csf_off -> 68 <= app_off ->
+  (forall d, dcdo = Some d -> 0 < hlen d) -> (forall d, xmo = Some d -> 0 < hlen d) ->
+  segs_ok [] ([(0, ivt_b); (32, bdt_b)] ++ opt_seg 64 dcdo ++ opt_seg 64 xmo ++ [(csf_off, csf); (app_off, ap)]) = true ->
+  (dcdo = None \/ xmo = None) /\ 64 + hlen (of_opt dcdo) + hlen (of_opt xmo) <= app_off /\ app_off + hlen ap <= csf_off.
+Proof.
+  intros Hi Hb Ha Hc Ho H68 Hd Hx H.
+  destruct dcdo as [d|]; destruct xmo as [x|]; cbn [opt_seg app segs_ok ovl_any existsb fst snd of_opt] in H |- *;
+    try specialize (Hd _ eq_refl); try specialize (Hx _ eq_refl); rewrite ?Hi, ?Hb in H; change (hlen (@nil N)) with 0.
+  - exfalso. lia.
+  - split; [now right|]. lia.
+  - split; [now left|]. lia.
+  - split; [now left|]. lia.
+Qed.
+
+Lemma segs_ok_plain ivt_b bdt_b dcdo xmo ap app_off :
+  hlen ivt_b = 32 -> hlen bdt_b = 12 -> 0 < hlen ap -> 68 <= app_off ->
+  (forall d, dcdo = Some d -> 0 < hlen d) -> (forall d, xmo = Some d -> 0 < hlen d) ->
+  segs_ok [] ([(0, ivt_b); (32, bdt_b)] ++ opt_seg 64 dcdo ++ opt_seg 64 xmo ++ [(app_off, ap)]) = true ->
+  (dcdo = None \/ xmo = None) /\ 64 + hlen (of_opt dcdo) + hlen (of_opt xmo) <= app_off.
+Proof.
+  intros Hi Hb Ha H68 Hd Hx H.
+  destruct dcdo as [d|]; destruct xmo as [x|]; cbn [opt_seg app segs_ok ovl_any existsb fst snd of_opt] in H |- *;
+    try specialize (Hd _ eq_refl); try specialize (Hx _ eq_refl); rewrite ?Hi, ?Hb in H; change (hlen (@nil N)) with 0.
+  - exfalso. lia.
+  - split; [now right|]. lia.
+  - split; [now left|]. lia.
+  - split; [now left|]. lia.
+Qed.
+
+(* C07 layout hypotheses that remain after the repair: the application is non-empty and starts at or after IVT+0x44
+   (so the XMCD probe at 0x40 reads padding), the DCD/XMCD objects are well formed. That DCD, XMCD, application and CSF do not
+   collide is no longer assumed: a successful build implies it (build_geom). *)
+Definition layout_wf (c : hcfg) (q : pre) : Prop :=
+  68 <= c_app_off c /\ 0 < hlen (h_app c) /\
+  (forall x, q_dcd q = Some x -> hi4 (dc_par x) <> 12 /\ fits 1 (dc_par x) = true /\ fits 2 (dcd_size x) = true /\ dcd_stable x) /\
+  (forall x, q_xm q = Some x -> xmcd_wf (xm_if x) (xm_inst x) (xm_type x) (xm_cfg x)).
+
+Lemma app_bin_pos c : 0 < hlen (h_app c) -> 0 < hlen (c_app_bin c).
+Proof.
+  intros H. unfold c_app_bin. destruct (c_auth c); [|assumption]. rewrite hlen_pad_to by lia.
+  pose proof (halign_ge (hlen (h_app c)) 16). lia.
+Qed.
+
+Theorem build_geom c b q : hab_build c = Ok b -> hab_pre c = Ok q -> 68 <= c_app_off c -> 0 < hlen (h_app c) ->
+  (q_dcd q = None \/ q_xm q = None) /\
+  64 + hlen (of_opt (q_dcd_b q)) + hlen (of_opt (q_xm_b q)) <= c_app_off c /\
+  hlen (of_opt (q_dx q)) = hlen (of_opt (q_dcd_b q)) + hlen (of_opt (q_xm_b q)) /\
+  (c_auth c = true -> c_app_off c + hlen (c_app_bin c) <= c_csf_off c /\ c_app_off c < c_csf_off c).
+Proof.
+  intros Hb Hq H68 Hap.
+  destruct (pre_lens c q Hq) as (Li & Lb & Lx).
+  pose proof (hab_pre_inv c q Hq) as (_ & Hg & _ & _ & Hxm & _).
+  pose proof (app_bin_pos c Hap) as Hab. pose proof (csf_after_app c Hg) as Hca.
+  assert (Dp : forall d, q_dcd_b q = Some d -> 0 < hlen d).
+  { unfold q_dcd_b. intros d E. destruct (q_dcd q) as [x|]; [|discriminate]. cbn [option_map] in E. apply ok_some in E.
+    subst d. pose proof (hlen_dcd_export x). lia. }
+  assert (Xp : forall d, q_xm_b q = Some d -> 0 < hlen d).
+  { intros d E. destruct (h_xmcd c); [|destruct Hxm; congruence]. destruct Hxm as (x & xb & _ & _ & Ex & Exb).
+    assert (xb = d) by congruence. subst xb. rewrite (xmcd_export_len _ _ Ex). unfold xmcd_size. pose proof (hlen_nonneg (xm_cfg x)). lia. }
+  assert (Conv : (q_dcd_b q = None \/ q_xm_b q = None) -> (q_dcd q = None \/ q_xm q = None)).
+  { intros [E | E]; [left | right].
+    - unfold q_dcd_b in E. destruct (q_dcd q); [discriminate | reflexivity].
+    - destruct (h_xmcd c); [destruct Hxm as (x & xb & _ & _ & _ & Exb); congruence | tauto]. }
+  assert (Dx : (q_dcd_b q = None \/ q_xm_b q = None) ->
+               hlen (of_opt (q_dx q)) = hlen (of_opt (q_dcd_b q)) + hlen (of_opt (q_xm_b q))).
+  { unfold q_dx. intros [E | E]; rewrite E; [reflexivity|]. destruct (q_dcd_b q); cbn [of_opt]; change (hlen (@nil N)) with 0; lia. }
+  apply hab_build_inv in Hb as (q' & Hq' & Hb). rewrite Hq in Hq'. apply ok_inj in Hq'; subst q'.
+  destruct (c_auth c) eqn:Ha.
+  - apply hab_finish_inv in Hb as (csf0 & cmds1 & app_fin & eb & nonce & mac & cmds2 & cmds3 & csf_b & H0 & _ & _ & _ & _ & _ & Hso & _).
+    unfold all_segs, base_segs in Hso. rewrite <- !app_assoc in Hso.
+    destruct (segs_ok_auth _ _ _ _ _ _ _ _ Li Lb Hab (csf_export_pos _ _ _ H0) Hca H68 Dp Xp Hso) as (G1 & G2 & G3).
+    split; [now apply Conv|]. split; [exact G2|]. split; [now apply Dx|]. intros _. split; assumption.
+  - destruct Hb as [Hso _]. unfold base_segs in Hso. rewrite <- !app_assoc in Hso.
+    destruct (segs_ok_plain _ _ _ _ _ _ Li Lb Hab H68 Dp Xp Hso) as (G1 & G2).
+    split; [now apply Conv|]. split; [exact G2|]. split; [now apply Dx|]. intros; discriminate.
+Qed.
+
+Lemma layout_full_of_build c b q : hab_build c = Ok b -> hab_pre c = Ok q -> layout_wf c q -> layout_full c q.
+Proof.
+  intros Hb Hq (H68 & Hap & Hd & Hx). destruct (build_geom c b q Hb Hq H68 Hap) as (G1 & G2 & G3 & G4).
+  unfold layout_full. split; [exact G1|]. split; [lia|]. split; [exact H68|]. split; [exact G4|]. split; assumption.
+Qed.
+
+(* ------------------------------------------------------------------ the property theorems in their public form *)
+Theorem layout_roundtrip' c b q : hab_build c = Ok b -> hab_pre c = Ok q -> layout_wf c q ->
+  (c_enc c = true -> wf_bytes (h_dek c)) ->
+  find_app_off (b_image b) (c_entry c) known_offsets = Ok (c_app_off c) ->
+  parse_ivt_bdt (b_image b) = Ok (c_ivt c, (h_start c, c_bdt_len c, 0)) /\
+  parse_dcd (b_image b) (c_ivt c) = Ok (q_dcd_b q) /\
+  parse_xmcd (b_image b) = Ok (q_xm_b q) /\
+  parse_app (b_image b) (c_ivt c) = Ok (c_app_off c, b_app b ++ gap_tail c b) /\
+  (c_enc c = false -> b_app b = c_app_bin c).
+Proof. intros Hb Hq W. apply layout_roundtrip; try assumption. now apply (layout_full_of_build c b q). Qed.
+
+Theorem pointers_resolve' c b q : hab_build c = Ok b -> hab_pre c = Ok q -> layout_wf c q ->
+  (c_enc c = true -> wf_bytes (h_dek c)) ->
+  iv_self (c_ivt c) = h_start c + h_ivt_off c /\
+  hslice (b_image b) 0 32 = q_ivt_b q /\ ivt_parse (q_ivt_b q) = Ok (c_ivt c) /\
+  hslice (b_image b) (iv_bdt (c_ivt c) - iv_self (c_ivt c)) (iv_bdt (c_ivt c) - iv_self (c_ivt c) + 12) = q_bdt_b q /\
+  bdt_parse (q_bdt_b q) = Ok (h_start c, c_bdt_len c, 0) /\
+  (match q_dcd_b q with
+   | Some d => hslice (b_image b) (iv_dcd (c_ivt c) - iv_self (c_ivt c)) (iv_dcd (c_ivt c) - iv_self (c_ivt c) + hlen d) = d
+   | None => iv_dcd (c_ivt c) = 0
+   end) /\
+  hslice (b_image b) (c_app_off c) (c_app_off c + hlen (b_app b)) = b_app b /\
+  (if c_auth c
+   then hskip (b_image b) (iv_csf (c_ivt c) - iv_self (c_ivt c)) = b_csf b /\
+        (hlen (b_csf b) = 8192 -> c_bdt_len c = h_ivt_off c + hlen (b_image b) + (if c_enc c then 512 else 0))
+   else iv_csf (c_ivt c) = 0 /\ c_bdt_len c = h_ivt_off c + hlen (b_image b)).
+Proof. intros Hb Hq W. apply pointers_resolve; try assumption. now apply (layout_full_of_build c b q). Qed.
+
+Theorem ccm_restores' c b q : hab_build c = Ok b -> hab_pre c = Ok q -> c_enc c = true -> layout_wf c q -> wf_bytes (h_dek c) ->
+  b_enc b = [(h_start c + h_ivt_off c + c_app_off c, hlen (c_app_bin c))] /\
+  ccm_decrypt (aes_enc (h_dek c)) (b_nonce b) [] (Z.to_nat (h_mac_len c))
+              (hslice (b_image b) (c_app_off c) (c_app_off c + hlen (c_app_bin c)) ++ b_mac b) = Some (c_app_bin c).
+Proof. intros Hb Hq He W. apply (ccm_restores c b q); try assumption. now apply (layout_full_of_build c b q). Qed.
+
+(* the claimed DCD size (sum of the command objects' sizes) is what is exported; holds for every specification-encoded DCD *)
+Definition dcd_sized (q : pre) : Prop := 0 <= q_dcd_sz q <= hlen (of_opt (q_dcd_b q)).
+
+Lemma xm_sz_len c q : hab_pre c = Ok q -> q_xm_sz q = hlen (of_opt (q_xm_b q)).
+Proof.
+  intros Hq. pose proof (hab_pre_inv c q Hq) as (_ & _ & _ & _ & Hxm & _). unfold q_xm_sz.
+  destruct (h_xmcd c).
+  - destruct Hxm as (x & xb & _ & E1 & E2 & E3). rewrite E1, E3. cbn [of_opt]. now rewrite (xmcd_export_len _ _ E2).
+  - destruct Hxm as [E1 E3]. rewrite E1, E3. reflexivity.
+Qed.
+
+Theorem cms_ranges' c b q : hab_build c = Ok b -> hab_pre c = Ok q -> c_auth c = true -> layout_wf c q ->
+  (c_enc c = true -> wf_bytes (h_dek c)) -> dcd_sized q ->
+  hskip (b_image b) (iv_csf (c_ivt c) - iv_self (c_ivt c)) = b_csf b /\
+  hbyte (b_csf b) 0 = 212 /\
+  b_tbs_csf b = hslice (b_csf b) 0 (u16be_at (b_csf b) 1) /\
+  b_tbs_data b = concat (map (fun blk => hslice (b_image b) (fst blk - c_self c) (fst blk - c_self c + snd blk)) (b_signed b)).
+Proof.
+  intros Hb Hq Ha W Hw [D0 D1]. pose proof W as (H68 & Hap & _).
+  destruct (build_geom c b q Hb Hq H68 Hap) as (_ & G2 & _).
+  pose proof (hlen_nonneg (of_opt (q_xm_b q))). pose proof (hlen_nonneg (of_opt (q_dcd_b q))). pose proof (xm_sz_len c q Hq).
+  apply (cms_ranges c b q); try assumption; try lia. now apply (layout_full_of_build c b q).
+Qed.
+
+(* the Authenticate Data (+ Decrypt Data) blocks cover exactly IVT, boot-data slot, DCD, XMCD and the whole application;
+   they are pairwise disjoint *)
+Theorem blocks_cover_built c b q : hab_build c = Ok b -> hab_pre c = Ok q -> c_auth c = true ->
+  (forall p, in_blocks c (b_signed b ++ b_enc b) p <-> content_pos c q p) /\
+  (68 <= c_app_off c -> 0 < hlen (h_app c) -> dcd_sized q -> disjoint_blocks (b_signed b ++ b_enc b)).
+Proof.
+  intros Hb Hq Ha. destruct (build_blocks c b q Hb Hq Ha) as [-> ->].
+  split; [apply blocks_cover|]. intros H68 Hap [D0 D1].
+  destruct (build_geom c b q Hb Hq H68 Hap) as (G1 & G2 & _).
+  apply blocks_disjoint; try assumption.
+  pose proof (xm_sz_len c q Hq). lia.
+Qed.
+
+Definition cw_xmcd : hcfg :=
+  {| h_flags := 8; h_start := 4096; h_ivt_off := 1024; h_ils := 4096; h_entry := Some 8193;
+     h_app := [0; 0; 2; 32; 1; 32; 0; 0]%N; h_dcd := None; h_xmcd := Some (xmcd_bytes 1 3 0 [1; 2; 3; 4]%N);
+     h_ver := 66; h_engine := 0; h_secs := [SInsSrk 0 [215; 0; 4; 64]%N; SAuthCsf; SAuthData 0 0 0];
+     h_dek := []; h_mac_len := 16; h_nonce := None; h_sig_data := [1%N]; h_sig_csf := [2%N] |}.
+
+(* non-vacuity: an authenticated image with an XMCD (SEMC, instance 3) builds, and its blocks include the XMCD *)
+Example cw_xmcd_blocks :
+  match hab_build cw_xmcd with Ok b => b_signed b ++ b_enc b | Err _ => [] end = [(5120, 64); (5184, 8); (8192, 16)].
+Proof. vm_compute. reflexivity. Qed.
+
+Example layout_wf_nonvacuous :
+  exists b q, hab_build c_ex = Ok b /\ hab_pre c_ex = Ok q /\ layout_wf c_ex q /\
+              find_app_off (b_image b) (c_entry c_ex) known_offsets = Ok (c_app_off c_ex).
+Proof.
+  destruct layout_roundtrip_nonvacuous as (b & q & Hb & Hq & (W1 & W2 & W3 & W4 & W5 & W6) & Hp).
+  exists b, q. split; [exact Hb|]. split; [exact Hq|]. split; [|exact Hp].
+  unfold layout_wf. split; [exact W3|]. split; [cbv; reflexivity|]. split; assumption.
 Qed.
